@@ -132,7 +132,14 @@ class Session:
         os.makedirs(os.path.join(VERIF, 'replays'), exist_ok=True)
         vio_records = []
         seen_keys = set()
+        n_replayed = 0
         for r in violations:
+            key0 = r.ob.name.split('#')[0]
+            if key0 in seen_keys or n_replayed >= 12:
+                # one replay per distinct obligation name, at most 12 per run: the remaining refuted obligations are listed in the
+                # evidence ('refuted') without a replay of their own
+                continue
+            n_replayed += 1
             rec = {'property': self.prop, 'obligation': r.ob.name, 'function': r.ob.func, 'kind': r.ob.kind,
                    'backend': r.backend, 'solver_model': r.model, 'trail': r.ob.info.get('trail'),
                    'source': self.functions, 'confirmed': False}
